@@ -129,11 +129,16 @@ func (m *recoveryMessage) GetChangeViews(p dbft.ConsensusPayload[crypto.Uint256]
 	payloads := make([]dbft.ConsensusPayload[crypto.Uint256], len(m.changeViewPayloads))
 
 	for i, cv := range m.changeViewPayloads {
-		payloads[i] = fromPayload(dbft.ChangeViewType, p, &changeView{
+		c := fromPayload(dbft.ChangeViewType, p, &changeView{
 			newViewNumber: cv.OriginalViewNumber + 1,
 			timestamp:     cv.Timestamp,
 		})
-		payloads[i].SetValidatorIndex(cv.ValidatorIndex)
+		// The view of the recovery message is not the one ChangeView was sent at,
+		// and it's the original view that is packed when this payload is relayed
+		// in the next recovery message.
+		c.viewNumber = cv.OriginalViewNumber
+		c.SetValidatorIndex(cv.ValidatorIndex)
+		payloads[i] = c
 	}
 
 	return payloads
